@@ -101,6 +101,7 @@ func New(
 	}
 	/* Set up a timer to unsilence the shell after there's been a lull. */
 	s.silenceTimer = time.AfterFunc(0, func() {
+		verifYield("timer")
 		s.wL.Lock()
 		defer s.wL.Unlock()
 
@@ -123,6 +124,7 @@ func New(
 	s.t.ControlCharacterCallback = func(key rune) {
 		switch key {
 		case 0x0F: /* ^O, silence output for a bit. */
+			verifYield("ctrlo")
 			s.wL.Lock()
 			defer s.wL.Unlock()
 			/* Don't double-pause. */
@@ -298,8 +300,10 @@ func (s *Shell) handleOutput(ctx context.Context) error {
 // writePlain writes a plain message to the terminal, assuming the terminal's
 // not being silenced.
 func (s *Shell) writePlain(line string) error {
+	verifYield("plain")
 	s.wL.Lock()
 	defer s.wL.Unlock()
+	verifYield("plain-locked")
 
 	/* If we've been told to be quiet, make sure we're not
 	doing this too fast. */
@@ -322,8 +326,10 @@ func (s *Shell) Logf(
 	format string,
 	v ...any,
 ) (int, error) {
+	verifYield("logf")
 	s.wL.Lock()
 	defer s.wL.Unlock()
+	verifYield("logf-locked")
 	return logf(
 		s.t,
 		s.t.Escape,
